@@ -899,13 +899,42 @@ theorem C14_model_eq_spec (q : Quirks) (S : Schema) (a : Alloc σ) (ha : a.Valid
   have hh : (run q S a ops).h = (specRun q S ops).h := by rw [← habs]; rfl
   simp only [herr, Bool.false_eq_true, if_false, habs, hh]
 
-/-- **C14_partial.** The code as it is (every quirk on): for every history in which no existence check is answered
-by a stale index entry (in particular: every history in which no node index is handed out twice) and no dead,
-unswept instance is met by the transitive inference, relations and field contents are those of the specification. -/
+/-- **C14_no_reuse_no_stale.** As long as the allocator has not handed out any node index a second time (ghost
+`reused`, sticky across `clear`), no existence check was answered by a stale `_relation_index` entry: a stale entry
+mentions an index no node has any more, and only a recycled index can bring it back. -/
+theorem C14_no_reuse_no_stale (q : Quirks) (S : Schema) (a : Alloc σ) (ha : a.Valid) (ops : List Op)
+    (h : (run q S a ops).g.reused = false) : (run q S a ops).staleHit = false :=
+  (C13_inv_run q S a ha ops).noHit h
+
+/-- **C14_partial.** The tree before the repair (every quirk on): for every history in which no node index is handed out
+twice and no dead, unswept instance is met by the transitive inference, relations among live instances and field
+contents are those of the specification (hence, by `spec_forgets`, those of the same assertions on a fresh graph). -/
 theorem C14_partial (S : Schema) (a : Alloc σ) (ha : a.Valid) (ops : List Op)
-    (h1 : (run Quirks.asIs S a ops).staleHit = false) (h2 : (run Quirks.asIs S a ops).deadHit = false) :
+    (h1 : (run Quirks.original S a ops).g.reused = false) (h2 : (run Quirks.original S a ops).deadHit = false) :
+    (run Quirks.original S a ops).relObs = (specRun Quirks.original S ops).relObs :=
+  (C14_model_eq_spec Quirks.original S a ha ops
+    ⟨Or.inr (C14_no_reuse_no_stale Quirks.original S a ha ops h1), Or.inr h2⟩).2
+
+/-- **C14_current.** The code as it is now (the `remove_node` repair applied, commit c18b52a; dead ends still raise,
+finding F-C14-2): for every history in which the transitive inference meets no dead, unswept instance, relations among
+live instances and field contents are those of the specification — whatever node indices and ids were recycled. -/
+theorem C14_current (S : Schema) (a : Alloc σ) (ha : a.Valid) (ops : List Op)
+    (h : (run Quirks.asIs S a ops).deadHit = false) :
     (run Quirks.asIs S a ops).relObs = (specRun Quirks.asIs S ops).relObs :=
-  (C14_model_eq_spec Quirks.asIs S a ha ops ⟨Or.inr h1, Or.inr h2⟩).2
+  (C14_model_eq_spec Quirks.asIs S a ha ops ⟨Or.inl rfl, Or.inr h⟩).2
+
+/-- **C14_partial_precise.** … and more precisely: on every history in which no existence check was answered by a
+stale entry, even if indices were recycled. -/
+theorem C14_partial_precise (S : Schema) (a : Alloc σ) (ha : a.Valid) (ops : List Op)
+    (h1 : (run Quirks.original S a ops).staleHit = false) (h2 : (run Quirks.original S a ops).deadHit = false) :
+    (run Quirks.original S a ops).relObs = (specRun Quirks.original S ops).relObs :=
+  (C14_model_eq_spec Quirks.original S a ha ops ⟨Or.inr h1, Or.inr h2⟩).2
+
+/-- with an allocator that never recycles, the hypothesis on indices holds by itself (test on a concrete history with
+garbage, a sweep and new instances) -/
+example : (run Quirks.original Drive.SG.schema monotone
+    [.new 0 2 0, .new 1 1 1, .set 0 0 1, .drop 0, .drop 1, .sweep, .new 2 1 0, .new 3 2 1, .set 0 3 2]).g.reused = false := by
+  decide
 
 
 /-! ### the specification forgets a garbage prefix -/
@@ -1185,6 +1214,328 @@ theorem garbage_of_model (q : Quirks) (hq1 : q.staleRelIndex = false) (hq2 : q.d
   rw [← (C14_model_eq_spec q S a ha p ⟨Or.inl hq1, Or.inl hq2⟩).1]; exact hg
 
 
+/-! ### "every instance of the prefix is dead" is enough: the specification only mentions live instances -/
+
+/-- field contents and relations only mention instances for which `L` holds -/
+def RelOK (L : Obj → Bool) (r : RelSt) : Prop :=
+  (∀ e ∈ r.fields, L e.owner = true) ∧ (∀ e ∈ r.edges, L e.src.obj = true ∧ L e.tgt.obj = true)
+
+theorem relOK_record {L : Obj → Bool} {S : Schema} {r : RelSt} (h : RelOK L r) (f : Fld) (a b : R) (inf : Bool)
+    (ha : L a.obj = true) (hb : L b.obj = true) : RelOK L (r.record S f a b inf) := by
+  unfold RelSt.record
+  have hedges : ∀ e ∈ r.edges ++ [(⟨f, a, b, inf⟩ : AEdge)], L e.src.obj = true ∧ L e.tgt.obj = true := by
+    intro e he
+    rcases List.mem_append.1 he with h1 | h1
+    · exact h.2 e h1
+    · simp only [List.mem_singleton] at h1; subst h1; exact ⟨ha, hb⟩
+  split
+  · refine ⟨?_, hedges⟩
+    intro e he
+    unfold updateFields at he
+    split at he
+    · rcases List.mem_append.1 he with h1 | h1
+      · exact h.1 e (List.mem_filter.1 h1).1
+      · simp only [List.mem_singleton] at h1; subst h1; exact ha
+    · split at he
+      · exact h.1 e he
+      · rcases List.mem_append.1 he with h1 | h1
+        · exact h.1 e h1
+        · simp only [List.mem_singleton] at h1; subst h1; exact ha
+  · exact ⟨h.1, hedges⟩
+
+theorem foldl_relOK {α : Type} {L : Obj → Bool} (f : RelSt → α → RelSt) (Q : RelSt → α → Prop)
+    (hstep : ∀ r x, RelOK L r → Q r x → RelOK L (f r x))
+    (hQ : ∀ r r' x, RelOK L r → RelOK L r' → Q r x → Q r' x) :
+    ∀ (l : List α) (r : RelSt), RelOK L r → (∀ x ∈ l, Q r x) → RelOK L (l.foldl f r)
+  | [], _, h, _ => h
+  | x :: l, r, h, hq => by
+    simp only [List.foldl_cons]
+    have h1 := hstep r x h (hq x List.mem_cons_self)
+    exact foldl_relOK f Q hstep hQ l _ h1 (fun y hy => hQ r _ y h h1 (hq y (List.mem_cons_of_mem _ hy)))
+
+theorem relOK_specAddFact {L : Obj → Bool} (S : Schema) : ∀ (fuel : Nat) (r : RelSt) (f : Fld) (a b : R) (inf : Bool),
+    RelOK L r → L a.obj = true → L b.obj = true → RelOK L (specAddFact S fuel r f a b inf)
+  | 0, _, _, _, _, _, h, _, _ => h
+  | fuel + 1, r, f, a, b, inf, h, ha, hb => by
+    unfold specAddFact
+    split
+    · exact h
+    have hrec : ∀ r f a b, RelOK L r → L a.obj = true → L b.obj = true →
+        RelOK L ((fun s f a b => specAddFact S fuel s f a b true) r f a b) :=
+      fun r f a b h ha hb => relOK_specAddFact S fuel r f a b true h ha hb
+    have h1 := relOK_record (S := S) h f a b inf ha hb
+    have h2 : RelOK L (RelSt.inferSupers S (fun s f a b => specAddFact S fuel s f a b true)
+        (r.record S f a b inf) f a b) := by
+      unfold RelSt.inferSupers
+      exact foldl_relOK _ (fun _ _ => True) (fun r x hr _ => hrec r x a b hr ha hb) (fun _ _ _ _ _ _ => trivial)
+        _ _ h1 (fun _ _ => trivial)
+    have h3 : RelOK L (RelSt.inferInverse S (fun s f a b => specAddFact S fuel s f a b true)
+        (RelSt.inferSupers S (fun s f a b => specAddFact S fuel s f a b true) (r.record S f a b inf) f a b) f a b) := by
+      unfold RelSt.inferInverse
+      split
+      · exact hrec _ _ _ _ h2 hb ha
+      · exact h2
+    generalize RelSt.inferInverse S (fun s f a b => specAddFact S fuel s f a b true)
+        (RelSt.inferSupers S (fun s f a b => specAddFact S fuel s f a b true) (r.record S f a b inf) f a b) f a b = r3
+      at h3 ⊢
+    unfold RelSt.inferTransitive
+    split
+    · have h4 : RelOK L (RelSt.inferOut S (fun s f a b => specAddFact S fuel s f a b true) r3 f a b) := by
+        unfold RelSt.inferOut
+        refine foldl_relOK _ (fun _ (e : AEdge) => L e.tgt.obj = true) (fun r x hr hx => hrec r x.fld a x.tgt hr ha hx)
+          (fun _ _ _ _ _ hx => hx) _ _ h3 ?_
+        intro e he
+        exact (h3.2 e (List.mem_filter.1 (List.mem_reverse.1 he)).1).2
+      generalize RelSt.inferOut S (fun s f a b => specAddFact S fuel s f a b true) r3 f a b = r4 at h4 ⊢
+      unfold RelSt.inferIn
+      refine foldl_relOK _ (fun _ (e : AEdge) => L e.src.obj = true) (fun r x hr hx => hrec r x.fld x.src b hr hx hb)
+        (fun _ _ _ _ _ hx => hx) _ _ h4 ?_
+      intro e he
+      exact (h4.2 e (List.mem_filter.1 (List.mem_reverse.1 he)).1).1
+    · exact h3
+
+/-- everything a specification state mentions is alive -/
+structure SpecInv (s : Spec) : Prop where
+  held : ∀ o ∈ s.h.held, s.h.isLive o = true
+  rel : RelOK s.h.isLive ⟨s.h.fields, s.edges⟩
+  reg : ∀ r ∈ s.reg, s.h.isLive r.obj = true
+
+theorem reach_superset (h : Heap) : ∀ (n : Nat) (seen : List Obj), ∀ o ∈ seen, o ∈ h.reach n seen
+  | 0, _, _, ho => ho
+  | n + 1, seen, o, ho => by
+    simp only [Heap.reach]
+    split
+    · exact ho
+    · exact reach_superset h n _ o (List.mem_append_left _ ho)
+
+theorem collect_isLive (q : Quirks) (h : Heap) (o : Obj) (hl : h.isLive o = true)
+    (hr : o ∈ h.reach (h.live.length + 1) (h.roots q)) : (h.collect q).isLive o = true := by
+  unfold Heap.collect
+  rw [kill_isLive, hl]
+  simp only [Heap.garbage, Bool.true_and, Bool.not_eq_eq_eq_not, Bool.not_true]
+  rw [← Bool.not_eq_true, List.contains_iff_mem]
+  simp only [List.mem_map, List.mem_filter, Bool.not_eq_eq_eq_not, Bool.not_true, not_exists, not_and]
+  rintro x ⟨_, hx⟩ rfl
+  rw [← Bool.not_eq_true, List.contains_iff_mem] at hx
+  exact hx hr
+
+/-- collection followed by pruning keeps the specification state closed under "alive" -/
+theorem SpecInv.collectPrune {s : Spec} (q : Quirks) (hI : SpecInv s) (h1 : Heap) (hlive : h1.live = s.h.live)
+    (hheld : ∀ o ∈ h1.held, o ∈ s.h.held) (hfields : h1.fields = s.h.fields) :
+    SpecInv ({ s with h := h1.collect q } : Spec).prune := by
+  have hisl : h1.isLive = s.h.isLive := by funext o; simp [Heap.isLive, hlive]
+  constructor
+  · intro o ho
+    have ho' : o ∈ h1.held := ho
+    apply collect_isLive q h1 o (by rw [hisl]; exact hI.held o (hheld o ho'))
+    apply reach_superset
+    unfold Heap.roots
+    exact List.mem_append_left _ ho'
+  · constructor
+    · intro e he
+      have he' : e ∈ (h1.collect q).fields := he
+      unfold Heap.collect Heap.kill at he'
+      simp only [List.mem_filter] at he'
+      show (h1.collect q).isLive e.owner = true
+      unfold Heap.collect
+      rw [kill_isLive, hisl, hI.rel.1 e (hfields ▸ he'.1)]
+      simpa using he'.2
+    · intro e he
+      have he' := (List.mem_filter.1 he).2
+      simp only [Bool.and_eq_true] at he'
+      exact he'
+  · intro r hr
+    have hr' := List.mem_filter.1 hr
+    exact hr'.2
+
+theorem isLive_mono {h h' : Heap} (hsub : ∀ x ∈ h.live, x ∈ h'.live) (o : Obj) (ho : h.isLive o = true) :
+    h'.isLive o = true := by
+  rw [isLive_iff] at ho ⊢
+  obtain ⟨x, hx, rfl⟩ := ho
+  exact ⟨x, hsub x hx, rfl⟩
+
+theorem SpecInv.ofHeap {s : Spec} (hI : SpecInv s) (h' : Heap) (hl : h'.live = s.h.live)
+    (hh : ∀ o ∈ h'.held, o ∈ s.h.held) (hf : h'.fields = s.h.fields) : SpecInv ({ s with h := h' } : Spec) := by
+  have hisl : h'.isLive = s.h.isLive := by funext o; simp [Heap.isLive, hl]
+  constructor
+  · intro o ho; show h'.isLive o = true; rw [hisl]; exact hI.held o (hh o ho)
+  · show RelOK h'.isLive ⟨h'.fields, s.edges⟩
+    rw [hisl, hf]; exact hI.rel
+  · intro r hr; show h'.isLive r.obj = true; rw [hisl]; exact hI.reg r hr
+
+theorem SpecInv.ensure {s : Spec} (hI : SpecInv s) (x : HObj) (hx : x ∈ s.h.live) : SpecInv (s.ensure x) := by
+  have h1 := hI.ofHeap (s.h.register x.obj) rfl (fun _ h => h) rfl
+  constructor
+  · exact h1.held
+  · exact h1.rel
+  · intro r hr
+    have hr' : r ∈ (if s.reg.any (fun r => r.obj == x.obj) then s.reg else s.reg ++ [⟨x.obj, x.cls⟩]) := hr
+    show (s.h.register x.obj).isLive r.obj = true
+    rw [register_isLive]
+    split at hr'
+    · exact hI.reg r hr'
+    · rcases List.mem_append.1 hr' with h | h
+      · exact hI.reg r h
+      · simp only [List.mem_singleton] at h; subst h
+        exact (isLive_iff _ _).2 ⟨x, hx, rfl⟩
+
+theorem SpecInv.assert {s : Spec} (hI : SpecInv s) (S : Schema) (f : Fld) (a b : R) (ha : s.h.isLive a.obj = true)
+    (hb : s.h.isLive b.obj = true) : SpecInv (s.assert S f a b) := by
+  have hr := relOK_specAddFact (L := s.h.isLive) S S.fuel ⟨s.h.fields, s.edges⟩ f a b false hI.rel ha hb
+  constructor
+  · exact hI.held
+  · exact hr
+  · exact hI.reg
+
+theorem ensure_live (s : Spec) (x : HObj) : (s.ensure x).h.live = s.h.live := rfl
+
+theorem SpecInv.write {s : Spec} (hI : SpecInv s) (S : Schema) (f : Fld) (a b : Obj) (ha : s.h.isLive a = true) :
+    SpecInv ({ s with h := s.h.write S f a b } : Spec) := by
+  have hisl : (s.h.write S f a b).isLive = s.h.isLive := by funext o; simp [Heap.isLive]
+  constructor
+  · intro o ho
+    show (s.h.write S f a b).isLive o = true
+    rw [hisl]; apply hI.held
+    have : (s.h.write S f a b).held = s.h.held := by unfold Heap.write; split <;> (try split) <;> rfl
+    exact this ▸ ho
+  · show RelOK (s.h.write S f a b).isLive ⟨(s.h.write S f a b).fields, s.edges⟩
+    rw [hisl]
+    refine ⟨?_, hI.rel.2⟩
+    intro e he
+    unfold Heap.write at he
+    split at he
+    · rcases List.mem_append.1 he with h1 | h1
+      · exact hI.rel.1 e (List.mem_filter.1 h1).1
+      · simp only [List.mem_singleton] at h1; subst h1; exact ha
+    · dsimp only at he
+      split at he
+      · exact hI.rel.1 e he
+      · rcases List.mem_append.1 he with h1 | h1
+        · exact hI.rel.1 e h1
+        · simp only [List.mem_singleton] at h1; subst h1; exact ha
+    · rcases List.mem_append.1 he with h1 | h1
+      · exact hI.rel.1 e h1
+      · simp only [List.mem_singleton] at h1; subst h1; exact ha
+  · intro r hr; show (s.h.write S f a b).isLive r.obj = true; rw [hisl]; exact hI.reg r hr
+
+theorem specInv_init : SpecInv Spec.init := by
+  constructor <;> simp [Spec.init, Heap.empty, RelOK]
+
+/-- every operation keeps the specification state closed under "alive" -/
+theorem specStep_inv (q : Quirks) (S : Schema) (s : Spec) (op : Op) (hI : SpecInv s) : SpecInv (specStep q S s op) := by
+  cases op with
+  | new o c pid =>
+    simp only [specStep]
+    split
+    · exact hI
+    · have hsub : ∀ x ∈ s.h.live, x ∈ s.h.live ++ [(⟨o, c, pid⟩ : HObj)] := fun x hx => List.mem_append_left _ hx
+      constructor
+      · intro o' ho'
+        rcases List.mem_append.1 ho' with h | h
+        · exact isLive_mono hsub _ (hI.held o' h)
+        · simp only [List.mem_singleton] at h; subst h
+          exact (isLive_iff _ _).2 ⟨⟨o', c, pid⟩, by simp, rfl⟩
+      · exact ⟨fun e he => isLive_mono hsub _ (hI.rel.1 e he),
+          fun e he => ⟨isLive_mono hsub _ (hI.rel.2 e he).1, isLive_mono hsub _ (hI.rel.2 e he).2⟩⟩
+      · intro r hr
+        rcases List.mem_append.1 hr with h | h
+        · exact isLive_mono hsub _ (hI.reg r h)
+        · simp only [List.mem_singleton] at h; subst h
+          exact (isLive_iff _ _).2 ⟨⟨o, c, pid⟩, by simp, rfl⟩
+  | drop l =>
+    exact hI.collectPrune q { s.h with held := s.h.held.filter (fun x => x != l) } rfl
+      (fun o ho => (List.mem_filter.1 ho).1) rfl
+  | sweep => exact hI
+  | clear =>
+    constructor
+    · exact hI.held
+    · exact ⟨hI.rel.1, by intro e he; simp [specStep] at he⟩
+    · simp [specStep]
+  | rel f a b =>
+    simp only [specStep]
+    split
+    · rename_i xa xb hfa hfb
+      have hxa := find_some hfa
+      have hxb := find_some hfb
+      have h2 := (hI.ensure xa hxa.1).ensure xb hxb.1
+      split
+      · exact h2
+      · constructor
+        · exact h2.held
+        · refine ⟨h2.rel.1, ?_⟩
+          intro e he
+          rcases List.mem_append.1 he with h | h
+          · exact h2.rel.2 e h
+          · simp only [List.mem_singleton] at h; subst h
+            exact ⟨(isLive_iff _ _).2 ⟨xa, hxa.1, rfl⟩, (isLive_iff _ _).2 ⟨xb, hxb.1, rfl⟩⟩
+        · exact h2.reg
+    · exact hI
+  | set f a b =>
+    simp only [specStep]
+    split
+    · rename_i xa xb hfa hfb
+      have hxa := find_some hfa
+      have hxb := find_some hfb
+      split
+      · have h1 := hI.write S f a b ((isLive_iff _ _).2 ⟨xa, hxa.1, hxa.2⟩)
+        have hla : xa ∈ (Heap.write S s.h f a b).live := by rw [write_live]; exact hxa.1
+        have hlb : xb ∈ (Heap.write S s.h f a b).live := by rw [write_live]; exact hxb.1
+        have h2 := (h1.ensure xa hla).ensure xb hlb
+        have h3 := h2.assert S f ⟨xa.obj, xa.cls⟩ ⟨xb.obj, xb.cls⟩
+          ((isLive_iff _ _).2 ⟨xa, hla, rfl⟩) ((isLive_iff _ _).2 ⟨xb, hlb, rfl⟩)
+        exact h3.collectPrune q _ rfl (fun _ h => h) rfl
+      · have h2 := (hI.ensure xa hxa.1).ensure xb hxb.1
+        have h3 := h2.assert S f ⟨xa.obj, xa.cls⟩ ⟨xb.obj, xb.cls⟩
+          ((isLive_iff _ _).2 ⟨xa, hxa.1, rfl⟩) ((isLive_iff _ _).2 ⟨xb, hxb.1, rfl⟩)
+        exact h3.write S f a b ((isLive_iff _ _).2 ⟨xa, hxa.1, hxa.2⟩)
+    · exact hI
+  | mkq k c dom =>
+    simp only [specStep]
+    split
+    · exact hI
+    · exact hI.ofHeap _ rfl (fun _ h => h) rfl
+  | evalq k =>
+    simp only [specStep]
+    split
+    · exact hI
+    · exact hI.collectPrune q _ rfl (fun _ h => h) rfl
+  | dropq k =>
+    simp only [specStep]
+    split
+    · exact hI
+    · split
+      · exact hI
+      · refine hI.collectPrune q _ ?_ ?_ ?_ <;> unfold Heap.dropQuery <;> split <;> first | rfl | exact fun _ h => h
+
+theorem specRun_inv (q : Quirks) (S : Schema) (ops : List Op) : SpecInv (specRun q S ops) := by
+  unfold specRun
+  have : ∀ (l : List Op) (s : Spec), SpecInv s → SpecInv (l.foldl (specStep q S) s) := by
+    intro l; induction l with
+    | nil => intro s h; exact h
+    | cons op l ih => intro s h; exact ih _ (specStep_inv q S s op h)
+  exact this ops _ specInv_init
+
+/-- **garbage_of_dead.** "Garbage prefix" only has to be checked on the instances and the query objects: if every
+instance the prefix created is dead and no query object of it is left, nothing else of it is left either. -/
+theorem garbage_of_dead (q : Quirks) (S : Schema) (p : List Op) (hl : (specRun q S p).h.live = [])
+    (hq : (specRun q S p).h.qvars = []) : Garbage (specRun q S p) := by
+  have hI := specRun_inv q S p
+  have hdead : ∀ o, (specRun q S p).h.isLive o = false := by intro o; simp [Heap.isLive, hl]
+  refine ⟨hl, ?_, ?_, hq, ?_, ?_⟩
+  · rw [List.eq_nil_iff_forall_not_mem]; intro o ho; have := hI.held o ho; rw [hdead] at this; cases this
+  · rw [List.eq_nil_iff_forall_not_mem]; intro e he; have := hI.rel.1 e he; rw [hdead] at this; cases this
+  · rw [List.eq_nil_iff_forall_not_mem]; intro r hr; have := hI.reg r hr; rw [hdead] at this; cases this
+  · rw [List.eq_nil_iff_forall_not_mem]; intro e he; have := (hI.rel.2 e he).1; rw [hdead] at this; cases this
+
+/-- **C14_fresh_equiv_dead.** `C14_fresh_equiv` with the garbage condition in its plain form: every instance created
+by the prefix is dead at its end and no query object of the prefix is left. -/
+theorem C14_fresh_equiv_dead {σ' : Type} (q : Quirks) (hq1 : q.staleRelIndex = false)
+    (hq2 : q.deadEndpointRaises = false) (S : Schema) (a : Alloc σ) (ha : a.Valid) (a' : Alloc σ') (ha' : a'.Valid)
+    (p s : List Op) (hl : (specRun q S p).h.live = []) (hq : (specRun q S p).h.qvars = [])
+    (hfresh : ∀ o c pid, Op.new o c pid ∈ s → o ∉ (specRun q S p).h.used) :
+    (run q S a (p ++ s)).relObs = (run q S a' s).relObs :=
+  C14_fresh_equiv q hq1 hq2 S a ha a' ha' p s (garbage_of_dead q S p hl hq) hfresh
+
 /-! ### witnesses (tests on concrete inputs, on the schema of the harness) and non-vacuity -/
 
 open KrroodVerif.Drive.SG in
@@ -1195,12 +1546,12 @@ dropped, collected and swept; a new `Org` and a new `Emp` get the recycled node 
 theorem C14_cex_recycled :
     let p := [Op.new 0 2 0, .new 1 1 1, .set 0 0 1, .drop 0, .drop 1, .sweep]
     let s := [Op.new 2 1 0, .new 3 2 1, .set 0 3 2]
-    (run Quirks.asIs schema lifo (p ++ s)).staleHit = true ∧
-    (run Quirks.asIs schema lifo (p ++ s)).relObs = some ([], [(3, 0, 2)]) ∧
-    (run Quirks.asIs schema lifo s).relObs =
+    (run Quirks.original schema lifo (p ++ s)).staleHit = true ∧
+    (run Quirks.original schema lifo (p ++ s)).relObs = some ([], [(3, 0, 2)]) ∧
+    (run Quirks.original schema lifo s).relObs =
       some ([(0, 3, 2), (1, 3, 2), (2, 2, 3)], [(3, 0, 2), (3, 1, 2), (2, 2, 3)]) ∧
-    (run Quirks.c14Fixed schema lifo (p ++ s)).relObs = (run Quirks.asIs schema lifo s).relObs ∧
-    (specRun Quirks.asIs schema (p ++ s)).relObs = (run Quirks.asIs schema lifo s).relObs := by
+    (run Quirks.asIs schema lifo (p ++ s)).relObs = (run Quirks.original schema lifo s).relObs ∧
+    (specRun Quirks.original schema (p ++ s)).relObs = (run Quirks.original schema lifo s).relObs := by
   dsimp only
   refine ⟨by decide, by decide, by decide, by decide, by decide⟩
 
@@ -1211,11 +1562,11 @@ dead ends skipped, the assertion records `b → c` as on a fresh graph. -/
 theorem C14_cex_dead_source :
     let ops := [Op.new 0 1 0, .new 1 1 1, .new 2 1 2, .set 3 0 1, .drop 0, .set 3 1 2]
     let swept := [Op.new 0 1 0, .new 1 1 1, .new 2 1 2, .set 3 0 1, .drop 0, .sweep, .set 3 1 2]
-    (run Quirks.asIs schema lifo ops).deadHit = true ∧ (run Quirks.asIs schema lifo ops).relObs = none ∧
-    (run Quirks.c14Fixed schema lifo ops).relObs = none ∧
-    (run Quirks.asIs schema lifo swept).relObs = some ([(3, 1, 2)], [(1, 3, 2)]) ∧
+    (run Quirks.original schema lifo ops).deadHit = true ∧ (run Quirks.original schema lifo ops).relObs = none ∧
+    (run Quirks.asIs schema lifo ops).relObs = none ∧
+    (run Quirks.original schema lifo swept).relObs = some ([(3, 1, 2)], [(1, 3, 2)]) ∧
     (run Quirks.none schema lifo ops).relObs = some ([(3, 1, 2)], [(1, 3, 2)]) ∧
-    (specRun Quirks.asIs schema ops).relObs = some ([(3, 1, 2)], [(1, 3, 2)]) := by
+    (specRun Quirks.original schema ops).relObs = some ([(3, 1, 2)], [(1, 3, 2)]) := by
   dsimp only
   refine ⟨by decide, by decide, by decide, by decide, by decide, by decide⟩
 
@@ -1235,12 +1586,12 @@ example :
   rcases hm with ⟨rfl, _⟩ | ⟨rfl, _⟩ | ⟨rfl, _⟩ <;> decide
 
 open KrroodVerif.Drive.SG in
-/-- non-vacuity of `C14_partial`: a history with garbage and a sweep in which the LIFO allocator recycles indices,
-yet no stale entry is hit -/
+/-- non-vacuity of `C14_partial_precise`: a history with garbage and a sweep in which the LIFO allocator recycles
+indices, yet no stale entry is hit -/
 example :
     let ops := [Op.new 0 2 0, .new 1 1 1, .set 0 0 1, .drop 0, .drop 1, .sweep, .new 2 2 0, .new 3 1 1, .set 0 2 3]
-    (run Quirks.asIs schema lifo ops).staleHit = false ∧ (run Quirks.asIs schema lifo ops).deadHit = false ∧
-    (run Quirks.asIs schema lifo ops).g.relIdx.length = 6 := by
+    (run Quirks.original schema lifo ops).staleHit = false ∧ (run Quirks.original schema lifo ops).deadHit = false ∧
+    (run Quirks.original schema lifo ops).g.reused = true ∧ (run Quirks.original schema lifo ops).g.relIdx.length = 6 := by
   decide
 
 end KrroodVerif.SG
